@@ -3,14 +3,15 @@
 (* Trace validation of recorded API-level executions of the real engine    *)
 (* against the contract AbsTxn.  The trace is a newline-delimited JSON     *)
 (* file (env TRACE) with one object per API event, in the order of a       *)
-(* process-wide atomic sequence number.  The linearization points LPBegin  *)
-(* and LPCommit are not observable: they are silent steps TLC searches     *)
-(* over.  Many traces are validated by one TLC run: a "Reset" event starts *)
+(* process-wide recording order.  The linearization points of Begin and    *)
+(* Commit are not observable: LPCommit is a silent step TLC searches over  *)
+(* (it also decides which Begins in progress see the commit).  Many traces are validated by one TLC run: a "Reset" event starts *)
 (* a fresh store.                                                          *)
 (*                                                                         *)
 (* Acceptance: the position reaches Len(Trace)+1 (the search stops at once *)
 (* via TLCSet("exit")); otherwise, after an exhaustive search, the high-    *)
-(* water mark of the position (TLC register 1) tells where it failed.        Run with -workers 1, CHECK_DEADLOCK FALSE and    *)
+(* water mark of the position (TLC register 1) tells where it failed.      *)
+(* Run with -workers 1, CHECK_DEADLOCK FALSE and                           *)
 (* -Dtlc2.tool.queue.IStateQueue=StateDeque.                               *)
 (***************************************************************************)
 EXTENDS AbsTxn, TLC, Json, IOUtils
@@ -18,14 +19,14 @@ EXTENDS AbsTxn, TLC, Json, IOUtils
 Trace == ndJsonDeserialize(IOEnv.TRACE)
 
 VARIABLE l                         \* next trace position
-tvars == <<commits, ws, up, l>>
+tvars == <<cur, ws, up, l>>
 
 E == Trace[l]
 IsEv(name) == l <= Len(Trace) /\ E.ev = name /\ l' = l + 1
 
 TInit == AInit /\ l = 1
 
-TReset      == IsEv("Reset") /\ commits' = <<>> /\ ws' = [x \in Workers |-> Idle] /\ up' = TRUE
+TReset      == IsEv("Reset") /\ cur' = [k \in Keys |-> Gone] /\ ws' = [x \in Workers |-> Idle] /\ up' = TRUE
 TBeginInv   == IsEv("BeginInv")   /\ BeginInv(E.w, E.upd)
 TBeginResp  == IsEv("BeginResp")  /\ BeginResp(E.w)
 TGet        == IsEv("Get")        /\ Get(E.w, E.k, E.v)
